@@ -490,7 +490,18 @@ func generate(r *hx.Rng, worlds, n int) []cs {
 		if len(keys) > 0 {
 			ks = hx.HL(keys)
 		}
-		g.add("RD", fmt.Sprint([]int{0, 1, 16, 17}[r.Pick(4)]), H(lo), H(hi), ks)
+		rt := fmt.Sprint([]int{0, 1, 16, 17}[r.Pick(4)])
+		g.add("RD", rt, H(lo), H(hi), ks)
+		// the same range backwards (reverse scans; shared with C13 / C20): also with bounds that fall before the
+		// first or after the last stored key
+		if r.Chance(0.3) && len(keys) > 0 {
+			lo = append([]byte{}, keys[0]...)
+			lo[len(lo)-1]--
+		}
+		if r.Chance(0.3) && len(keys) > 0 {
+			hi = append(append([]byte{}, keys[len(keys)-1]...), 0xff)
+		}
+		g.add("RDR", rt, H(lo), H(hi), ks)
 	}
 	// size limits
 	mk := int(rr.VerifConsts()["max_key_size"])
